@@ -180,11 +180,17 @@ pub fn scan<V: Vary>(
     // dv/dy for the right edge
     let dr_dy = r0.dv_dt(r1, recip_dy);
 
-    // dv/dx is constant for the whole polygon; precompute it
+    // dv/dx is constant for the whole polygon; precompute it from the wider
+    // of the two bases. In a triangle one of them has zero width.
     let dv_dx = {
-        let (l0, r0) = (l0.step(&dl_dy), r0.step(&dr_dy));
-        let dx = r0.0.x() - l0.0.x();
-        l0.dv_dt(&r0, dx.recip())
+        let dx0 = r0.0.x() - l0.0.x();
+        let dx1 = r1.0.x() - l1.0.x();
+        use crate::math::float::f32;
+        if f32::abs(dx0) >= f32::abs(dx1) {
+            l0.dv_dt(r0, dx0.recip())
+        } else {
+            l1.dv_dt(r1, dx1.recip())
+        }
     };
 
     // Find the y value of the next pixel center (.5) vertically
